@@ -109,13 +109,16 @@ def _call(est, proc, rows, W, bs, okw, use_W):
     if use_W == "inverse":
         from dreye.api.optimize import lsq_linear as L
 
-        a = dict(lb=est.lb, ub=est.ub, W="inverse", K=est.K, baseline=est.baseline, return_pred=True)
+        sp = _spec("inverse")
+        a = dict(lb=B.arr(sp["lb"]), ub=B.arr(sp["ub"]), W="inverse", K=(None if sp["K"] is None else np.atleast_1d(B.arr(sp["K"]))),
+                 baseline=(None if sp["baseline"] is None else np.atleast_1d(B.arr(sp["baseline"]))), return_pred=True)
+        Araw = np.array(sp["A"])
         if proc == "minvar":
-            X, Bp, _ = L.lsq_linear_minimize(est.A, rows, **a, **kw)
+            X, Bp, _ = L.lsq_linear_minimize(Araw, rows, **a, **kw)
         elif proc == "excitation":
-            X, Bp = L.lsq_linear_excitation(est.A, rows, **a, **kw)
+            X, Bp = L.lsq_linear_excitation(Araw, rows, **a, **kw)
         else:
-            X, Bp = L.lsq_linear(est.A, rows, model=proc, **a, **kw)
+            X, Bp = L.lsq_linear(Araw, rows, model=proc, **a, **kw)
         return np.asarray(X, dtype=float), np.asarray(Bp, dtype=float)
     if use_W:
         est.register_targets(rows, W)
